@@ -409,6 +409,12 @@ def enumerate_cells(meta, tier, seed):
                 if lower:
                     cells.append({"kind": "I", "s": m["name"], "src": src, "bad": bad["label"],
                                   "fallback": lower[0]})
+                # ... and with a valid value for the same setting in a MORE authoritative source: the refused value is still refused
+                upper = [s for s in srcs[:srcs.index(src)] if pick(pool, s, 1) is not None]
+                if upper:
+                    cells.append({"kind": "I", "s": m["name"], "src": src, "bad": bad["label"], "fallback": upper[-1], "stronger": True})
+                    if tier != "quick" and len(upper) > 1:
+                        cells.append({"kind": "I", "s": m["name"], "src": src, "bad": bad["label"], "fallback": upper[0], "stronger": True})
     cells.extend(enumerate_histories(meta, tier, seed, P))
     return cells
 
@@ -737,7 +743,7 @@ def judge(run, cell, recipe, model, baseline, obs, MB):
             run.count("invalid_rejected")
             run.count("invalid_rejected_from_" + src)
             if cell["fallback"]:
-                run.count("invalid_rejected_despite_fallback")
+                run.count("invalid_rejected_despite_stronger_source" if cell.get("stronger") else "invalid_rejected_despite_fallback")
             fam = exc_family(how)
             if fam and src in ("file", "framework"):
                 # the ways a validator says no: each of them, from each of these sources, must stop loading
@@ -1113,7 +1119,7 @@ def main(tier, seed):
                 "falsy_command_line_value_wins", "normalisation_observed", "cross_setting_cells",
                 "delivery_env-c", "delivery_discover", "delivery_python", "delivery_fileprefix",
                 "invalid_cells", "invalid_rejected", "invalid_rejected_from_cli", "invalid_rejected_from_env",
-                "invalid_rejected_from_file", "invalid_rejected_from_framework", "invalid_rejected_despite_fallback",
+                "invalid_rejected_from_file", "invalid_rejected_from_framework", "invalid_rejected_despite_fallback", "invalid_rejected_despite_stronger_source",
                 # every way a validator refuses a value (exception type), from the sources that carry Python objects
                 *["invalid_rejected_from_%s_by_%s" % (src, fam) for src in ("file", "framework") for fam in EXC_FAMILIES],
                 *["reload_invalid_rejected_by_" + fam for fam in EXC_FAMILIES], "rejecting_exception_type_observed",
